@@ -70,3 +70,8 @@ claim("C13", "property-based testing of generated alias graphs: parallel walk of
       "its own key or set member) must raise ComposerError / ConstructorError; no RecursionError; call budget.",
       "Trusted: the renderer/expectation in checks/c13.py. Cycles through python/tuple or inside a __setstate__ state may be built or rejected; one known finding (cycle first reached in deep "
       "mode is rejected) is excluded by a predicate on the document (it contains a __setstate__ class and a cycle), which also hides other wrong rejections in that class of documents.")
+claim("C16", "metamorphic property-based testing: insertion-order permutation, helper interpreters with other PYTHONHASHSEED values, dump-load-dump fixed point, per-document anchor numbering (Hypothesis)",
+      "Generated search: value graphs (1-3 documents, sharing, recursion) whose containers draw keys from one mutually comparable class x dump options x both dumpers. Relations: sort_keys on => "
+      "identical text after permuting every container's insertion order and in interpreters started with PYTHONHASHSEED 1 and 4242 rebuilding the value from its blueprint; sort_keys off => "
+      "reloaded dict order is insertion order; dump(load(dump(x))) == dump(x) with either loader; every document defines exactly the anchors id001..idNNN.",
+      "Trusted: Hypothesis, vlib/compare.py, the helper protocol in vlib/c16_helper.py. Multi-member sets under sort_keys=False are outside the property and excluded by construction.")
